@@ -1,8 +1,9 @@
 """C08 - cache keys are canonical per bound arguments and separate different arguments.
 
-proof: lean/CashewsVerif/Props/C08.lean (key depends only on the bound arguments; separated templates are
-       injective on ':'-free field texts; generated templates are separated; per-type injectivity of the
-       rendering, and the bytes counterexample).
+proof: lean/CashewsVerif/Props/C08.lean (key depends only on the bound arguments; omitted defaults and
+       positional-vs-keyword forms keep them; separated templates are injective on ':'-free field texts;
+       generated templates are separated; per-type injectivity of the rendering incl. UTF-8 decoding and hex,
+       and the exact shape of the bytes collisions).
 tie:   real functions with every signature shape of <= 4 parameters are built with exec; for each, automatic
        and explicit templates, bound tuples from the typed alphabet and every equivalent call form are run
        through cashews.key.get_cache_key / get_cache_key_template (and through @cache on a recording
